@@ -11,7 +11,7 @@ RULE = ('case = (configuration, bit length, program, inputs); programs are kept 
 EXHAUSTIVE = 'm=1: all operand pairs of l-bit values for l in {1,2,3,4} (l=4 sampled 50% in quick) for every unary/binary operation'
 ASSUMPTIONS = ['reference = Python integer arithmetic', 'public divisors: b >= 1 decided; negative b is a separate input class (probe)']
 REQUIRE = {'any': {'programs_run': 300, 'outputs_compared': 1500, 'exhaustive_cases': 3000}}
-LEVEL_TEXT = 'exploration: all 16 (m,t) configurations x PRSS on/off (quick: 10 of them), l in {4,8,16,32}, all operations of the statement incl. gcd family; exhaustive tiny-l operand pairs at m=1'
+LEVEL_TEXT = 'exploration: all 16 (m,t) configurations x PRSS on/off (quick: 10 of them), l in {4,8,16,32,61,64}, all operations of the statement incl. gcd family; exhaustive tiny-l operand pairs at m=1'
 LEVEL_NOTE = 'trusted: vlib/progs.py reference interpreter, vlib/sim.py'
 TIMEOUT = {'quick': 1500, 'thorough': 12000}
 
@@ -116,8 +116,8 @@ def run(shard, rec):
         return
     m, t, no_prss = shard['cfg']
     for pi in range(shard['programs']):
-        l = rng.choice([4, 8, 16, 32])
-        full = pi % 2 == 0
+        l = rng.choice([4, 8, 16, 32, 32, 64, 61])        # above 60 bits equality tests take another route (probabilistic zero test)
+        full = pi % 2 == 0 and l <= 32
         ops = progs.ALL if (full and l <= 16) else ([o for o in progs.ALL if not o.startswith(('gcd', 'lcm', 'inverse'))] if full else progs.CHEAP)
         spec = progs.gen(rng, m, l=l, ops=ops, n_steps=(3, 7) if m > 3 else (3, 10))
         spec['sleepy'] = None
